@@ -22,6 +22,25 @@ pub fn run(kind: &str) -> i32 {
                 }
             }
         }
+        "trap" => {
+            // the panic trap (the only instrumentation of a build without overflow checks):
+            // an out-of-range index inside a trapped closure must come back as a panic record
+            let r = pgvcore::util::trap(|| {
+                let v = vec![1u8; 4];
+                v[black_box(9)]
+            });
+            let wraps = black_box(u32::MAX).wrapping_add(black_box(1)) == 0 && !cfg!(debug_assertions);
+            match r {
+                Err(p) if p.msg.contains("index out of bounds") && wraps => {
+                    println!("canary-fired trap at {} (debug assertions off)", p.location());
+                    0
+                }
+                _ => {
+                    println!("canary-silent: panic trap did not record the panic, or debug assertions are on");
+                    3
+                }
+            }
+        }
         "oob" => {
             let v = vec![1u8; 16];
             let p = v.as_ptr();
